@@ -173,6 +173,8 @@ def main(argv=None):
         evdir = os.path.join(E.VERIF, "evidence")
         if E.speckit_root() != "/repo":   # mutation self-test against a scratch copy: keep real evidence
             evdir = os.path.join(scratch, "evidence-selftest")
+        if os.environ.get("VERIF_EVIDENCE_DIR"):   # runs against a deliberately broken /repo (tools/seedtest.sh)
+            evdir = os.environ["VERIF_EVIDENCE_DIR"]
         os.makedirs(evdir, exist_ok=True)
         evpath = os.path.join(evdir, prop + ".json")
         with open(evpath, "w") as fh:
